@@ -331,6 +331,7 @@ def run_case(case):
     try:
         pool = [(build_fileset(root, cfg), dict(cfg)) for cfg in case["filesets"]]
         pool = [(fs_, cfg_, obj_state(fs_)) for fs_, cfg_ in pool]
+        gone = {}        # id(FileSet object) -> start times of the files that this object's delete() / move() removed
         for op in case["ops"]:
             fs, cfg, fs_init = pool[op["fs"] % len(pool)]
             r = dict(op)
@@ -376,6 +377,14 @@ def run_case(case):
                                         for f in hits if rel(root, f.path) == out["written"]]
                     except Exception as ex:  # noqa
                         out["found_error"] = f"{type(ex).__name__}: {str(ex)[:200]}"
+                elif name == "get" and op["pick"] % 3 == 0 and gone.get(id(fs)):
+                    # history: the object is asked by timestamp for a file that its own delete() / move() removed
+                    # earlier; whatever it answers (C16 says what), it must not hand out the removed file
+                    t = gone[id(fs)][(op["pick"] // 3) % len(gone[id(fs)])]
+                    r["t"], r["ghost"] = to_us(t), True
+                    data = fs[t]
+                    v, faithful = val(kind, data)
+                    out["value"], out["faithful"] = v, faithful
                 elif name in ("read", "get"):
                     ex = existing(root, fs, cfg)
                     if not ex:
@@ -451,7 +460,10 @@ def run_case(case):
                         cv = True
                     else:
                         cv = Convert(kind, dcfg["hkind"], int(conv))
+                    seen_before = existing(root, fs, cfg)
                     ret = fs.move(dest, convert=cv, copy=op["copy"], **kw)
+                    still = set(listing_paths(root))
+                    gone.setdefault(id(fs), []).extend(f.times[0] for f in seen_before if rel(root, f.path) not in still)
                     if tg["kind"] == "path":
                         new_member = (ret, dcfg, dict(fs_init))
                 elif name == "delete":
@@ -461,9 +473,12 @@ def run_case(case):
                     _stdout = sys.stdout
                     sys.stdout = io.StringIO()
                     try:
+                        seen_before = existing(root, fs, cfg)
                         fs.delete(dry_run=op["dry"], **kw)
                     finally:
                         sys.stdout = _stdout
+                    still = set(listing_paths(root))
+                    gone.setdefault(id(fs), []).extend(f.times[0] for f in seen_before if rel(root, f.path) not in still)
                 else:
                     raise ValueError(name)
             except Exception as e:  # noqa
